@@ -286,6 +286,9 @@ def run(rep, tier, seed, replay=None):
     rng = common.mkrng(seed, 'C13')
     with common.Scratch() as tmp:
         info = common.std_static(rep, 'C13', GEN_GROUPS, AGREE, tmp)
+        rep.cov['trusted_base'] = sorted(set(rep.cov['trusted_base']) | {
+            'oracle: numpy.roots (output handed to the model as data; contract stated in the _partial theorems)',
+            'Base/BigF.v: 120-bit bigfloat evaluation of the model (unverified enclosure)'})
         expected_untranslated = {'gen_bezier_real_minmax_4'}
         changed = bool(info['agree_failed']) or bool(set(info['untranslated']) - expected_untranslated)
         n = 600 if tier == 'quick' else 20000
